@@ -70,6 +70,10 @@ fn transaction_process_contract() {
             } else {
                 kani::assert(r.is_none(), "obl:transaction.no_commit_without_user_decision");
             }
+            if sel % 5 == 3 {
+                // C05: a window operator carries nothing over into the next iteration
+                kani::assert(m.w.is_none(), "obl:transaction.iteration_end_carries_nothing_over");
+            }
         }
     }
     kani::cover!(sel % 5 == 0 && x % 4 == 1 && open, "cov:commit_on_open_window");
